@@ -2,7 +2,8 @@
    Definitions only -- proofs live in Slab*Proofs.v so the model still runs if a proof breaks.
 
    The model describes the code AS IT IS in /repo after the fix commits for D01 (copying realloc
-   unpoisons the whole source block before memcpy) and D02 (carving loop [off + item <= length]).
+   unpoisons the whole source block before memcpy), D02 (carving loop [off + item <= length]) and
+   D42 (free_in_slab_ decrements num_reserved).
 
    Environment = op input: the policy's answer to map() is part of the op ([MapRet r] / [MapFail]).
    The partial-slab red-black tree of every bucket is modelled as the sorted list of its keys
@@ -90,7 +91,7 @@ Record slab := mkSlab {
   sl_res : N;            (* frame::sb_reservation *)
   sl_idx : N;            (* slab_frame::index *)
   sl_avail : list N;     (* slab_frame::available, exact LIFO order, head first *)
-  sl_nres : N            (* slab_frame::num_reserved (unsigned int; never decremented by the code) *)
+  sl_nres : N            (* slab_frame::num_reserved (unsigned int): objects handed out and not yet freed *)
 }.
 Record large := mkLarge { lg_frame : N; lg_base : N; lg_res : N; lg_len : N }.
 
@@ -322,7 +323,7 @@ Definition free_small (c : cfg) (s : state) (x : slab) (p : N) : state * result 
     if sl_nres x =? 0 then (s, RAssert 7, []) else             (* FRG_ASSERT(slb->num_reserved) *)
     if match sl_avail x with [] => false | a :: _ => negb (sl_contains c x a) end
     then (s, RAssert 8, []) else
-    let x' := set_avail x (p :: sl_avail x) (sl_nres x) in
+    let x' := set_avail x (p :: sl_avail x) (sl_nres x - 1) in     (* D42 fix: num_reserved-- *)
     let part' := match sl_avail x with
                  | [] => upd_nth (partial s) (N.to_nat (sl_idx x)) (ins_sorted (sl_frame x))
                  | _ => partial s end in
@@ -472,6 +473,20 @@ Fixpoint trace_from (c : cfg) (s : state) (ops : list op) : list (result * list 
   end.
 
 (* ---------------------------------------------------------------------------------------- *)
+(* churn: any number >= 1 of allocate(n)/free pairs of a small size whose class has a partial  *)
+(* slab leaves everything as it was except the ghost peak counter (SlabChurn.v proves this    *)
+(* equal to iterating step); the driver uses it for the long replays                           *)
+(* ---------------------------------------------------------------------------------------- *)
+Definition churn_fast (s : state) (idx : N) : state :=
+  mkState (slabs s) (larges s) (partial s) (used s) (live s) (nlive s)
+          (upd_nth (peak s) (N.to_nat idx) (fun m => N.max m (N.succ (nth (N.to_nat idx) (nlive s) 0)))).
+Definition churn_class (c : cfg) (s : state) (n : N) : option N :=
+  let n' := if n =? 0 then 1 else n in
+  if n' <=? max_bucket_size c then
+    match bucket s (s2b n') with [] => None | _ => Some (s2b n') end
+  else None.
+
+(* ---------------------------------------------------------------------------------------- *)
 (* contents of a live block as seen through its write log (for the driver's digests)          *)
 (* ---------------------------------------------------------------------------------------- *)
 Definition pat (tag j : N) : N := (tag + j * 7 + j / 251) mod 256.
@@ -505,7 +520,8 @@ Definition cfg_ok (c : cfg) : bool :=
   && (0 <? hdr_frame c) && (hdr_frame c <=? page c) && (0 <? hdr_slab c)
   && (1 <=? nbuckets c) && (nbuckets c <=? 56)
   && (overhead c (max_bucket_size c) + 2 * max_bucket_size c <=? slabsz c)
-  && (sb c <=? 4611686018427387904).
+  && (sb c <=? 4611686018427387904)
+  && (slabsz c <=? 17179869184).      (* < 2^32 objects per slab: num_reserved is an unsigned int *)
 
 (* the length map() is asked for, when the op calls map in state s *)
 Definition alloc_map_len (c : cfg) (s : state) (n : N) : option N :=
